@@ -44,7 +44,8 @@ def gen_line(d: D, table: dict, names: List[str]) -> dict:
             cands += ["map vt.ctl.hmod.quick [1,2] -n 0", "apply vt.ctl.hmod.not_async", "starmap vt.ctl.hmod.not_async [(1,)]", "doublestarmap vt.ctl.hmod.quick [] --num-concurrent -1"]
         return {"kind": "badvalue", "text": d.pick(cands)}
     if r < 50:
-        w = d.pick(["bogus", "Lock", "LOCK", "apply_", "cancel_all", "num_running", "start-", "x", "pool_size", "getgroupids", "-lock", "--lock"])
+        w = d.pick(["bogus", "Lock", "LOCK", "apply_", "cancel_all", "num_running", "start-", "x", "pool_size", "getgroupids", "-lock", "--lock",
+                    "exit", "quit", "EXIT", "bye", "close", "disconnect", "help", "?"])      # words other programs treat specially: lines like any other
         return {"kind": "unknown", "text": w + d.pick(["", " 1", " -r", " a b c"])}
     if r < 78:
         cmd = d.pick(names)
@@ -172,7 +173,17 @@ class C18Engine(Engine):
                         if cls == "SimpleTaskPool":
                             c["sfunc"] = "quick"
                         cases.append(c)
-        return ("every place a number is expected x 14 tokens that are no number x 2 widths", cases, len(cases))
+        # words that clients and shells treat specially are lines like any other for the session: answered, session usable afterwards
+        for cls in ("TaskPool", "SimpleTaskPool"):
+            for word in ("exit", "quit", "EXIT", "Exit", "bye", "close", "disconnect", "help", "?", "q", "stop-server", "shutdown", "\\q", ":q", "logout"):
+                for tail in ("", " now", " -h"):
+                    c = {"cls": cls, "size": None, "width": 80, "nsess": 2, "stop_phase": False, "lines": [
+                        {"kind": "valid", "text": "num-running", "s": 0}, {"kind": "unknown", "text": word + tail, "s": 0},
+                        {"kind": "valid", "text": "num-ended", "s": 0}, {"kind": "valid", "text": "is-locked", "s": 1}]}
+                    if cls == "SimpleTaskPool":
+                        c["sfunc"] = "quick"
+                    cases.append(c)
+        return ("every place a number is expected x 14 tokens that are no number x 2 widths; plus 15 words other programs treat specially", cases, len(cases))
 
     def floors(self):
         return {"help-then-shorter": 0.2, "conversion-failure": 0.15, "sessions:>=2": 0.3, "kind:junk": 0.5}
